@@ -136,6 +136,25 @@ fn check_cli(variant: usize) -> Option<String> {
         let words: Vec<String> = a.dictionary().iter().map(|r| format!("{:?}/{:?}/{:?}", r.get_word(), r.get_weights(), r.get_comment())).collect();
         return Some(desc(&arg, &format!("dump + replace with the unmodified dump does not reproduce the model byte for byte; dictionary now {:?}", words)));
     }
+    // the same dump put into ANOTHER model (the shipped one with a two-word dictionary, never empty) gives the same model again: replace
+    // really replaces, whatever the old and the new dictionary are (an empty dump empties the dictionary)
+    let m_ship = dir.join("ship.zst");
+    {
+        let (mut other, _) = Model::read_slice(&bytes).ok()?;
+        other.replace_dictionary(vec![
+            WordWeightRecord::new("猫".to_string(), vec![1, 2], "x".to_string()).unwrap(),
+            WordWeightRecord::new("火星人".to_string(), vec![3, 4, 5, 6], String::new()).unwrap(),
+        ]);
+        zst_write(&m_ship, &other.to_vec().ok()?);
+    }
+    if let Err(e) = run_tool(&["--model-in".into(), s(&m_ship), "--replace-dict".into(), s(&csv), "--model-out".into(), s(&m_out)]) {
+        return Some(desc(&arg, &format!("manipulate_model --replace-dict on the other model fails: {}", e)));
+    }
+    let back = zst_read(&m_out);
+    if back != original {
+        let n = Model::read_slice(&back).ok().map(|(a, _)| a.dictionary().len());
+        return Some(desc(&arg, &format!("replacing the other model's (two-word) dictionary with the dump of {} record(s) does not give the model holding that dictionary (result has {:?} records)", Model::read_slice(&original).ok()?.0.dictionary().len(), n)));
+    }
     // a record whose weight count does not match the word length is rejected
     if variant == 0 {
         std::fs::write(&csv, "word,weights,comment\n猫,1 2 3,too many\n").unwrap();
